@@ -266,7 +266,7 @@ int run(const Options& o)
     for (auto& h : st.sample_histories) ev.sample(Json(h));
     if (st.sample_histories.empty()) ev.sample(Json("2.18.0|create_track(0);create_track(2);set(0,2|title)"));
     ev.assumption("normalisation table in src/model/trackfields.cpp: '' may read back as absent, 0 is the 'no value' sentinel for loudness / main cue / sample count / sample rate, durations and timestamps have whole-second resolution, ratings are clamped to 0..100, schema 1.x stores whole bpm");
-    ev.assumption("waveform read-back is not predicted (derived, resampled data); it is held to the frame condition only");
+    ev.assumption("waveform read-back: 1.x as given; 2.x predicted only for the empty waveform and for 1024 entries of full opacity (as given, or empty when the track has no usable count / rate); other 2.x waveforms are resampled data held to the frame condition only");
     for (auto& h : total.harness_errors) fprintf(stderr, "harness error: %s\n", h.c_str());
     int bad = rep.finish();
     if (!total.harness_errors.empty()) bad = -1;
